@@ -5,6 +5,7 @@
 //@ opaque DAC_VLS
 //@ fn RePair::extractStringAndCompareRP
 //@   requires(__CPROVER_r_ok(this, sizeof(*this)) && strLen <= 100000 && __CPROVER_rw_ok(str, (size_t)strLen + 1) && str[strLen] == 0 && !__CPROVER_same_object(str, this))
+//@   requires(gk < strLen ==> str[gk] != this->maxchar)
 //@   ensures(str[strLen] == 0)
 //@   ensures(gk <= strLen ==> str[gk] == OLD(str[gk]))
 //@   assigns(str[strLen])
@@ -28,7 +29,8 @@
 //@ ob rp_cmpRP_pattern entry=h_cmpRP enforce=RePair__extractStringAndCompareRP replace=LogSequence__getField,RePair__expandRuleAndCompareString loops tier=P props=C14,C07 kind=statement timeout=600
 //@ ob rp_expandRule entry=h_expand tier=B props=C20,C07 kind=statement unwind=5 foreach=NRULES:1-2 timeout=900 defs=-DREAL_GETFIELD
 //@ ob rp_expandRule3 entry=h_expand tier=B props=C20,C07 kind=statement unwind=9 timeout=3600 mem=30 defs=-DREAL_GETFIELD,-DNRULES=3 only=thorough
-//@ ob rp_expandCompare entry=h_expcmp tier=B props=C20,C02,C01 kind=statement unwind=7 foreach=NRULES:1-2 timeout=900 defs=-DREAL_GETFIELD,-DREAL_COMPARE
+//@ ob rp_expandCompare entry=h_expcmp tier=B props=C20,C02,C01,C03 kind=statement unwind=7 foreach=NRULES:1-2 timeout=900 defs=-DREAL_GETFIELD,-DREAL_COMPARE
+//@ ob rp_cmpRP_ref entry=h_cmpRP_ref tier=B props=C02,C01,C03 kind=statement unwind=7 unwindset=RePair__expandRuleAndCompareString_real:2,RePair__expandRuleAndCompareString:2 timeout=600 mem=30 defs=-DREAL_GETFIELD,-DREAL_COMPARE
 //@ ob rp_bits entry=h_bits tier=C props=C20 kind=statement unwind=34
 //@ ob rp_saveload entry=h_rp_sl tier=C props=C20,C06,C08 kind=statement unwind=20 foreach=ENC:0-1
 size_t gk;
@@ -65,10 +67,18 @@ void h_cmpRP(void) {
 #ifndef NRULES
 #define NRULES 2
 #endif
-#define T 4
+#ifndef T
+#define T 200   /* terminals are byte values: the alphabet spans both sides of 0x80, so signed/unsigned byte comparisons differ */
+#endif
+#define NB 9
+/* precondition of extractStringAndCompareRP (established by its only caller, HASHRPF::locate -- obligation hash2/hashrpf_locate):
+ * the pattern does not hold the terminator symbol maxchar.  Without it the obligation fails (defect F17). */
+#ifndef NO_TERMINATOR_IN_PATTERN
+#define NO_TERMINATOR_IN_PATTERN && in_str[k] != MC
+#endif
 #define MAXEXP (1 << NRULES)
 void h_expand(void) {
-  static size_t words[1]; LogSequence g; g.numbits = 8; g.numentries = 2 * NRULES; g.arraysize = 1; g.maxval = 255; g.array = words;
+  static size_t words[1]; LogSequence g; g.numbits = NB; g.numentries = 2 * NRULES; g.arraysize = 1; g.maxval = (1 << NB) - 1; g.array = words;
   RePair rp; rp.G = &g; rp.terminals = T; rp.rules = NRULES; rp.maxchar = T;
   uint in_sym[2 * NRULES];
   uchar ref[NRULES][MAXEXP]; uint reflen[NRULES];
@@ -77,7 +87,7 @@ void h_expand(void) {
     for (int side = 0; side < 2; side++) {
       uint x = in_sym[2 * r + side];
       __CPROVER_assume(x >= 1 && x < T + (uint)r);            /* a rule refers to terminals (never the terminator 0) and earlier rules only */
-      LogSequence__set_field(&g, words, 8, 2 * r + side, x);
+      LogSequence__set_field(&g, words, NB, 2 * r + side, x);
       if (x < T) ref[r][n++] = (uchar)x;
       else { uint q = x - T; for (uint k = 0; k < MAXEXP; k++) if (k < reflen[q]) ref[r][n++] = ref[q][k]; }
     }
@@ -100,7 +110,7 @@ int RePair__expandRuleAndCompareString(RePair *this, uint rule, uchar *str, uint
  * it with the reference expansion: 0 iff the expansion occurs at *pos (and *pos moves past it), otherwise the sign of
  * the first difference */
 void h_expcmp(void) {
-  static size_t words[1]; LogSequence g; g.numbits = 8; g.numentries = 2 * NRULES; g.arraysize = 1; g.maxval = 255; g.array = words;
+  static size_t words[1]; LogSequence g; g.numbits = NB; g.numentries = 2 * NRULES; g.arraysize = 1; g.maxval = (1 << NB) - 1; g.array = words;
   RePair rp; rp.G = &g; rp.terminals = T; rp.rules = NRULES; rp.maxchar = T;
   uint in_sym[2 * NRULES];
   uchar ref[NRULES][MAXEXP]; uint reflen[NRULES];
@@ -109,7 +119,7 @@ void h_expcmp(void) {
     for (int side = 0; side < 2; side++) {
       uint x = in_sym[2 * r + side];
       __CPROVER_assume(x >= 1 && x < T + (uint)r);
-      LogSequence__set_field(&g, words, 8, 2 * r + side, x);
+      LogSequence__set_field(&g, words, NB, 2 * r + side, x);
       if (x < T) ref[r][n++] = (uchar)x;
       else { uint q = x - T; for (uint k = 0; k < MAXEXP; k++) if (k < reflen[q]) ref[r][n++] = ref[q][k]; }
     }
@@ -126,6 +136,35 @@ void h_expcmp(void) {
   __CPROVER_assert((cmp == 0) == (expect == 0), "C20/C02: the rule compares equal exactly when its expansion occurs in the pattern");
   __CPROVER_assert(expect == 0 || ((cmp > 0) == (expect > 0)), "C20: otherwise the sign of the first difference is returned");
   __CPROVER_assert(expect != 0 || pos == reflen[in_rule], "C20: on a match the position moves past the expansion");
+  REACH_POINT();
+}
+/* C02/C01 (bounded): the comparison of a pattern with a string stored in the packed sequence (symbols and rules, ended by
+ * the symbol maxchar) returns 0 exactly when the stored string is the pattern; when they differ inside both, the sign is
+ * that of the first differing unsigned byte.  Sequence of at most 3 symbols + terminator, one rule, patterns up to 5 bytes. */
+#define MC 200
+#define PATMAX 5
+void h_cmpRP_ref(void) {
+  static size_t gw[1], cw[1]; LogSequence g, cls;
+  g.numbits = NB; g.numentries = 2; g.arraysize = 1; g.maxval = (1 << NB) - 1; g.array = gw;
+  cls.numbits = NB; cls.numentries = 4; cls.arraysize = 1; cls.maxval = (1 << NB) - 1; cls.array = cw;
+  RePair rp; rp.G = &g; rp.Cls = &cls; rp.terminals = MC + 1; rp.rules = 1; rp.maxchar = MC;
+  uint in_r0, in_r1; __CPROVER_assume(in_r0 >= 1 && in_r0 < MC && in_r1 >= 1 && in_r1 < MC);     /* a rule holds member bytes only */
+  LogSequence__set_field(&g, gw, NB, 0, in_r0); LogSequence__set_field(&g, gw, NB, 1, in_r1);
+  uint in_c[3]; uchar stored[6]; uint slen = 0; int ended = 0;
+  for (int k = 0; k < 3; k++) {
+    __CPROVER_assume(in_c[k] >= 1 && in_c[k] <= MC + 1);
+    LogSequence__set_field(&cls, cw, NB, k, in_c[k]);
+    if (!ended) { if (in_c[k] == MC) ended = 1; else if (in_c[k] == MC + 1) { stored[slen++] = (uchar)in_r0; stored[slen++] = (uchar)in_r1; } else stored[slen++] = (uchar)in_c[k]; }
+  }
+  LogSequence__set_field(&cls, cw, NB, 3, MC);
+  uchar in_str[PATMAX + 1]; uint in_len; __CPROVER_assume(in_len <= PATMAX);
+  for (uint k = 0; k < PATMAX; k++) if (k < in_len) __CPROVER_assume(in_str[k] != 0 NO_TERMINATOR_IN_PATTERN);
+  in_str[in_len] = 0;
+  int cmp = RePair__extractStringAndCompareRP(&rp, 0, in_str, in_len);
+  int same = slen == in_len; int firstdiff = 0;
+  for (uint k = 0; k < PATMAX; k++) if (k < slen && k < in_len && firstdiff == 0 && stored[k] != in_str[k]) { firstdiff = (int)stored[k] - (int)in_str[k]; same = 0; }
+  __CPROVER_assert((cmp == 0) == same, "C02/C01: the stored string compares equal exactly when it is the pattern");
+  __CPROVER_assert(firstdiff == 0 || (cmp > 0) == (firstdiff > 0), "C03: a difference inside both strings is reported with the sign of the unsigned byte difference");
   REACH_POINT();
 }
 /* C20: the number of bits reported for a symbol suffices for every terminal and rule identifier (32-bit sums) */
@@ -147,7 +186,7 @@ DAC_VLS *DAC_VLS__load(struct vstream *fp) { return g_saved_dac; }
 void h_rp_sl(void) {
   static size_t gw[2], cw[1]; LogSequence g, cls; static struct { char c; } dacobj;
   g.numbits = 9; g.numentries = 6; g.arraysize = 1; g.maxval = 511; g.array = gw; size_t in_g0; gw[0] = in_g0; gw[1] = 0;
-  cls.numbits = 9; cls.numentries = 5; cls.arraysize = 1; cls.maxval = 511; cls.array = cw; size_t in_c0; cw[0] = in_c0;
+  cls.numbits = 9; cls.numentries = 4; cls.arraysize = 1; cls.maxval = 511; cls.array = cw; size_t in_c0; cw[0] = in_c0;
   RePair rp; uchar in_maxchar; uint64_t in_terminals, in_rules;
   rp.G = &g; rp.Cls = &cls; rp.Cdac = (DAC_VLS *)&dacobj; rp.maxchar = in_maxchar; rp.terminals = in_terminals; rp.rules = in_rules;
   uint enc = ENC ? HASHRPDAC : HASHRPF;
